@@ -1,6 +1,7 @@
 package nodeprops
 
 import (
+	"context"
 	"errors"
 	"fmt"
 	"io"
@@ -15,7 +16,10 @@ import (
 	"github.com/bluenviron/gomavlib/v3"
 	"github.com/bluenviron/gomavlib/v3/pkg/timednetconn"
 
+	"github.com/bluenviron/gomavlib/v3/pkg/frame"
+	"github.com/bluenviron/gomavlib/v3/pkg/message"
 	"verifharness/fake"
+	"verifharness/ref"
 	"verifharness/vh"
 )
 
@@ -854,6 +858,10 @@ func TestC14(t *testing.T) {
 		i := i
 		run(func() { c14dialTimeout(rep, seed, i) })
 	}
+	for i := 0; i < vh.Pick(2, 12); i++ {
+		i := i
+		run(func() { c14activeStalled(rep, seed, i, i%2 == 1) })
+	}
 	if shard == 0 {
 		c14timed(rep, seed)
 	}
@@ -949,4 +957,138 @@ func c14dialTimeout(rep *vh.Report, seed uint64, idx int) {
 	rep.Eval(1)
 	rep.Count("dial_timeout_runs", 1)
 	rep.Distinct("dialtimeout", idx)
+}
+
+// c14activeStalled: a TCP peer that keeps sending but has stopped reading, while the node writes so much that its
+// writes run into the write timeout. The channel keeps receiving: it must not be closed (neither by the idle timer nor
+// because of the write side).
+func c14activeStalled(rep *vh.Report, seed uint64, idx int, asClient bool) {
+	if aborted() {
+		return
+	}
+	r := vh.Sub(seed, fmt.Sprintf("c14-active-stalled-%d", idx))
+	hookReset(r.U64(), false, false)
+	defer gomavlib.VerifSetHook(nil)
+	T := 500 * time.Millisecond
+	wt := time.Duration(80+r.Intn(60)) * time.Millisecond
+	port := freeTCPPort()
+	var ep gomavlib.EndpointConf = gomavlib.EndpointTCPServer{Address: fmt.Sprintf("127.0.0.1:%d", port)}
+	var ln net.Listener
+	if asClient {
+		var err error
+		ln, err = (&net.ListenConfig{Control: smallRcvBuf}).Listen(context.Background(), "tcp4", fmt.Sprintf("127.0.0.1:%d", port))
+		if err != nil {
+			rep.Inconclusive("C14 active-stalled: " + err.Error())
+			return
+		}
+		defer ln.Close()
+		ep = gomavlib.EndpointTCPClient{Address: fmt.Sprintf("127.0.0.1:%d", port)}
+	}
+	node := &gomavlib.Node{Endpoints: []gomavlib.EndpointConf{ep}, Dialect: testDialect, OutVersion: gomavlib.V2, OutSystemID: 36, HeartbeatDisable: true,
+		WriteTimeout: wt, IdleTimeout: T}
+	if err := node.Initialize(); err != nil {
+		rep.Inconclusive("C14 active-stalled: " + err.Error())
+		return
+	}
+	life := watchLife(node)
+	var conn net.Conn
+	var err error
+	if asClient {
+		conn, err = ln.Accept()
+	} else {
+		conn, err = (&net.Dialer{Control: smallRcvBuf}).Dial("tcp4", fmt.Sprintf("127.0.0.1:%d", port))
+	}
+	if err != nil {
+		safeClose(rep, node)
+		return
+	}
+	defer conn.Close()
+	// the peer sends a frame every T/12 and never reads
+	var stop int32
+	var maxGap int64
+	sdone := make(chan struct{})
+	go func() {
+		defer close(sdone)
+		last := time.Now()
+		for i := 0; atomic.LoadInt32(&stop) == 0; i++ {
+			if _, err := conn.Write(uidFrame(uint64(i+1), byte(i), 2, false, nil, 0)); err != nil {
+				return
+			}
+			time.Sleep(T / 12)
+			now := time.Now()
+			if g := int64(now.Sub(last)); g > atomic.LoadInt64(&maxGap) {
+				atomic.StoreInt64(&maxGap, g)
+			}
+			last = now
+		}
+	}()
+	if !waitFor(func() bool { return life.count(true) >= 1 }, life.progress, 2*time.Second) {
+		atomic.StoreInt32(&stop, 1)
+		<-sdone
+		rep.Inconclusive("C14 active-stalled: the channel did not open")
+		safeClose(rep, node)
+		return
+	}
+	var ch *gomavlib.Channel
+	for _, e := range life.snapshot() {
+		if e.Open {
+			ch = e.Ch
+		}
+	}
+	// flood until writes have been held up for the write timeout, then for longer than the idle timeout on top
+	big := make([]byte, 250)
+	for i := range big {
+		big[i] = byte(1 + i%250)
+	}
+	sp := &ref.FrameSpec{Version: 2, Sys: 9, Comp: 1, MsgID: 5000, Payload: big}
+	ref.Seal(sp, uidLayout.CRCExtra, nil)
+	lastDeq, heldUp := -1, 0
+	lastDeqAt, firstHeld := time.Now(), time.Time{}
+	start := time.Now()
+	for time.Since(start) < 8*time.Second && life.count(false) == 0 {
+		for k := 0; k < 50; k++ {
+			_ = node.WriteFrameTo(ch, &frame.V2Frame{SystemID: 9, ComponentID: 1, Checksum: sp.Checksum, Message: &message.MessageRaw{ID: 5000, Payload: big}})
+		}
+		time.Sleep(time.Millisecond)
+		deq := hookHits()["ch.writer.dequeue"]
+		if deq != lastDeq || ch.VerifBacklog() == 0 {
+			lastDeq, lastDeqAt = deq, time.Now()
+		} else if time.Since(lastDeqAt) > wt*9/10 {
+			heldUp++
+			if firstHeld.IsZero() {
+				firstHeld = time.Now()
+			}
+			lastDeqAt = time.Now()
+		}
+		if heldUp >= 1 && time.Since(firstHeld) > T+3*wt {
+			break
+		}
+	}
+	atomic.StoreInt32(&stop, 1)
+	<-sdone
+	gap := time.Duration(atomic.LoadInt64(&maxGap))
+	rep.Count("active_stalled_writes_held_up", heldUp)
+	switch {
+	case heldUp == 0:
+		rep.Inconclusive("C14 active-stalled: 8 s of output without one write held up for the write timeout")
+	case life.count(false) > 0 && gap < T/2:
+		var cerr error
+		for _, e := range life.snapshot() {
+			if !e.Open {
+				cerr = e.Err
+			}
+		}
+		rep.Violation("ep=tcp what=closed-while-active", fmt.Sprintf("a channel whose peer sent a frame every %v (largest gap %v, idle timeout %v) was closed while the node's writes ran into the write timeout (%v): %v", T/12, gap, T, wt, cerr),
+			map[string]interface{}{"as_client": asClient, "writes_held_up": heldUp})
+	case life.count(false) > 0:
+		rep.Inconclusive(fmt.Sprintf("C14 active-stalled: the harness's own send gap reached %v (>= T/2), activity verdict not taken", gap))
+	default:
+		rep.Count("active_stalled_channels_kept_open", 1)
+	}
+	if !safeClose(rep, node) {
+		return
+	}
+	<-life.done
+	rep.Eval(1)
+	rep.Distinct("active-stalled", idx, asClient)
 }
